@@ -112,15 +112,24 @@ def build_history(rng, cfgf, peerf):
             continue
         ctl, payload = gen_message(rng)
         terms = [ctl] + ([payload] if payload is not None else [])
+        replay_safe = False
         if hdr and rng.random() < 0.85:
             body = sender.message(terms)
+            before = dict(cache)
             c, p = etf.spec_read_dist_message(body, cache)
             exp = ("msg", c, p)
+            # a damaged copy may precede the message only if reading the header twice gives the same atoms (a header that
+            # refers to a slot and overwrites it further on is not idempotent; a real peer never repeats a header)
+            try:
+                etf.spec_read_dist_message(body, before)
+                replay_safe = etf.spec_read_dist_message(body, before) == (c, p)
+            except Exception:
+                replay_safe = False
         else:
             body = connlib.pass_through(ctl, payload, rng)
             exp = ("msg", etf.denote(termgen.strip_loc(ctl)), None if payload is None else etf.denote(termgen.strip_loc(payload)))
         if rng.random() < 0.2:
-            if body[:2] == bytes([131, 68]) and body[2] > 0:
+            if body[:2] == bytes([131, 68]) and body[2] > 0 and replay_safe:
                 # a damaged copy first; it carries the same cache entries as the message it damages
                 stream += frame(body[:len(body) - rng.randrange(1, 4)])
                 want.append(("junk", 1, "truncated-hdr"))
